@@ -98,6 +98,7 @@ def run(M, rec, tier, seed, k, n):
             W.overlapping_steps(M, rec, rng, 40, before_case=on_case)
             W.shared_object_networks(M, rec, rng, 40, before_case=on_case, engine_kinds=("numpy", "numpy", "SX", "MX"), symvals=symvals)
             W.late_registered_ramp_kinds(M, rec, rng, 12, before_case=on_case, engine_kinds=("numpy", "SX", "numpy", "MX"), symvals=symvals)
+            W.user_node_rules(M, rec, rng, 36, before_case=on_case, engine_kinds=("numpy", "SX", "numpy", "MX"), symvals=symvals)
         else:
             W.numpy_steps(M, rec, rng, 6000, draws=3, opts_prob=0.15, before_case=on_case)
             W.symbolic_steps(M, rec, rng, symvals, 420, points=3, opts_prob=0.15, before_case=on_case)
@@ -111,6 +112,7 @@ def run(M, rec, tier, seed, k, n):
             W.overlapping_steps(M, rec, rng, 300, before_case=on_case)
             W.shared_object_networks(M, rec, rng, 300, before_case=on_case, engine_kinds=("numpy", "numpy", "SX", "MX"), symvals=symvals)
             W.late_registered_ramp_kinds(M, rec, rng, 60, before_case=on_case, engine_kinds=("numpy", "SX", "numpy", "MX"), symvals=symvals)
+            W.user_node_rules(M, rec, rng, 300, before_case=on_case, engine_kinds=("numpy", "SX", "numpy", "MX"), symvals=symvals)
     finally:
         W.USER_KINDS["prob"] = 0.0
         mon.uninstall()
